@@ -3,7 +3,7 @@ from __future__ import annotations
 
 import ast
 
-from ..core import INCONCLUSIVE, OK, VIOLATION, Ctx, is_self_attr
+from ..core import INCONCLUSIVE, OK, VIOLATION, Ctx, is_self_attr, local_defs
 from ..model import AnalysisError, Inconclusive, body_walk, norm
 from .wrappers import counter_attr, evaluate_summaries, inf_sign
 
@@ -373,7 +373,25 @@ def r16_6(ctx: Ctx):
     g = ctx.prog.func("pyhms.core.problem", "get_function_problem")
     rec = [c for c in body_walk(g.node) if isinstance(c, ast.Call) and norm(c.func) == "get_function_problem"]
     ok = any(len(c.args) == 1 and norm(c.args[0]).endswith("._inner") for c in rec)
-    obs.append(ctx.ob("R16.6", g, g.node, status=OK if ok else VIOLATION, detail="unwrapping recurses on _inner" if ok else "get_function_problem does not recurse on `_inner`", construct="unwrap"))
+    st_u = OK if ok else INCONCLUSIVE
+    if not ok:
+        # iterative form: cur = problem; while not isinstance(cur, FunctionProblem): ...; cur = cur._inner; return cur
+        gp = g.params()[0] if g.params() else None
+        loops = [n for n in body_walk(g.node) if isinstance(n, ast.While)]
+        rets = [r for r in body_walk(g.node) if isinstance(r, ast.Return) and r.value is not None]
+        gdefs = local_defs(g)
+        for lp in loops:
+            steps = [n for n in ast.walk(lp) if isinstance(n, ast.Assign) and len(n.targets) == 1 and isinstance(n.targets[0], ast.Name) and isinstance(n.value, ast.Attribute) and n.value.attr == "_inner" and isinstance(n.value.value, ast.Name) and n.value.value.id == n.targets[0].id]
+            if len(steps) == 1:
+                cur = steps[0].targets[0].id
+                t = norm(lp.test).replace(" ", "")
+                entry = [d for d in gdefs.get(cur, []) if d is not steps[0].value]
+                if t == f"notisinstance({cur},FunctionProblem)" and rets and all(isinstance(r.value, ast.Name) and r.value.id == cur for r in rets) and (cur == gp or (len(entry) == 1 and isinstance(entry[0], ast.Name) and entry[0].id == gp)):
+                    st_u = OK
+        mentions_inner = any(isinstance(x, ast.Attribute) and x.attr == "_inner" for x in ast.walk(g.node))
+        if st_u != OK and (not mentions_inner or any(len(c.args) == 1 and isinstance(c.args[0], ast.Attribute) and c.args[0].attr != "_inner" for c in rec)):
+            st_u = VIOLATION
+    obs.append(ctx.ob("R16.6", g, g.node, status=st_u, detail="unwrapping follows _inner down to the FunctionProblem" if st_u == OK else "get_function_problem does not step through `_inner`" if st_u == VIOLATION else "cannot follow how get_function_problem unwraps the layers", construct="unwrap"))
     return obs
 
 
